@@ -334,4 +334,115 @@ theorem typeDeclS (hc : Ctx N tx it) (hadj : NoWSAfterColon it) (d : TypeDecl) (
       Bool.false_eq_true, OState.inherit, Bool.or_self, ec, ed, Res.pure_eq]
     exact e3
 
+/-- tokens of a function result after `=>` (alias, or a struct body; the bare-type-reference form is not covered here) -/
+def retToks : TypeDef → List TK
+  | .alias t => (T.tl2alias, bs "<=>") :: typeToks t
+  | .struct sd => sd.toks
+
+/-- tokens of a function declaration after its name -/
+def funcDeclToks (d : FuncDecl) : List TK :=
+  (T.crc32hash, bs "#" ++ hex8 d.magic) :: (fieldsToks d.args ++ ((T.functionSign, bs "=>") :: retToks d.ret))
+
+def FuncDecl.wf (d : FuncDecl) : Bool :=
+  decide (d.magic ≠ 0) && decide (d.magic < 4294967296) && d.args.all Field.wf && d.ret.wf
+
+/-- `parseTL2FuncDeclarationWithoutName` recovers a well-formed function declaration whose result is an alias or a
+struct body (up to comments) from the tokens after its name, up to the closing `;`. -/
+theorem funcDeclS (hc : Ctx N tx it) (d : FuncDecl) (hwf : d.wf = true) (its : Iter) (hsuf0 : its <:+ it) (ks : List TK)
+    (pos : Pos) (fuel : Nat) (hm : strip its = funcDeclToks d ++ semiTK :: ks) (hf : d.ret.need + 3 ≤ fuel)
+    (hf2 : needFields d.args ≤ fuel) :
+    ∃ rest d', parseFuncDecl tx fuel its pos d.name = .ok ({ start := true }, rest, d') ∧
+      d'.name = d.name ∧ d'.magic = d.magic ∧ d'.args.map Field.core = d.args.map Field.core ∧ d'.ret.core = d.ret.core ∧
+      strip rest = semiTK :: ks ∧ rest <:+ its := by
+  simp only [FuncDecl.wf, Bool.and_eq_true, decide_eq_true_eq] at hwf
+  obtain ⟨⟨⟨hm0, hm32⟩, hawf⟩, hrwf⟩ := hwf
+  have hawf' : ∀ f ∈ d.args, f.wf = true := fun f hf => (List.all_eq_true.mp hawf) f hf
+  simp only [funcDeclToks, List.cons_append, List.append_assoc] at hm
+  obtain ⟨hd, r, e, hnw, htk, hr, hsuf⟩ := skipWS_strip hm
+  have hty : (hd.ty == T.crc32hash) = true := by rw [show hd.ty = hd.tk.1 from rfl, htk]; rfl
+  obtain ⟨kf, ksf, hkf⟩ : ∃ kf ksf, fieldsToks d.args ++ ((T.functionSign, bs "=>") :: (retToks d.ret ++ semiTK :: ks)) = kf :: ksf := by
+    cases hh : fieldsToks d.args with
+    | nil => exact ⟨_, _, rfl⟩
+    | cons a b => exact ⟨a, _, rfl⟩
+  have em := parseMagicS (hd :: r) d.magic hm0 hm32 kf ksf pos hd r rfl hnw htk (by rw [hr, hkf])
+  have hneed := needFields_ge d.args
+  obtain ⟨r2, args', ea, hacore, hr2, hs2⟩ := fieldsS hc pos fuel d.args hawf' (fun g hg => by have := hneed.2 g hg; omega)
+    r ((List.suffix_cons hd r).trans (hsuf.trans hsuf0)) (T.functionSign, bs "=>") (retToks d.ret ++ semiTK :: ks) fuel [] false
+    hr (by decide) (by decide) (by omega)
+  obtain ⟨r3, e3, hr3, hs3⟩ := (expect_strip hr2 T.functionSign).1 rfl
+  have hr3it : r3 <:+ it := hs3.trans (hs2.trans ((List.suffix_cons hd r).trans (hsuf.trans hsuf0)))
+  have hsr3 : r3 <:+ its := hs3.trans (hs2.trans ((List.suffix_cons hd r).trans hsuf))
+  cases hret : d.ret with
+  | alias t =>
+    rw [hret] at hr3 hrwf hf
+    simp only [retToks, TypeDef.wf, TypeDef.need, List.cons_append] at hr3 hrwf hf
+    obtain ⟨hd4, r4, e4, hnw4, htk4, hr4, hsuf4⟩ := skipWS_strip hr3
+    have hty4 : (hd4.ty == T.tl2alias) = true := by rw [show hd4.ty = hd4.tk.1 from rfl, htk4]; rfl
+    have ect : checkToken r3 T.tl2alias = .ok (true, hd4 :: r4) := by
+      simp only [checkToken, checkAny, e4, Res.ok_bind, front_cons, Res.pure_eq, List.contains_cons, List.contains_nil,
+        Bool.or_false, hty4]
+    obtain ⟨r5, e5, hr5, hs5⟩ := typeS t hrwf r4 (semiTK :: ks) pos fuel hr4 ⟨semiTK, ks, rfl, by decide⟩ (by omega)
+    obtain ⟨t5, ht5⟩ := front_strip hr5
+    refine ⟨r5, { name := d.name, magic := d.magic, args := [] ++ args', ret := .alias t }, ?_, rfl, rfl, by simpa using hacore,
+      rfl, hr5, hs5.trans ((List.suffix_cons hd4 r4).trans (hsuf4.trans hsr3))⟩
+    unfold parseFuncDecl parseFields
+    simp only [e, Res.ok_bind, checkToken_nw hnw, hty, Bool.not_true, Bool.false_eq_true, ↓reduceIte, em, ea, OState.isFailed,
+      Option.isSome, Bool.and_false, e3, ect, popFront_cons, e5, OState.inherit, Bool.or_self, Bool.or_true, OState.hasProgress, Option.isNone,
+      Bool.and_self, ht5, Res.pure_eq]
+  | struct sd =>
+    rw [hret] at hr3 hrwf hf
+    simp only [retToks, TypeDef.wf, TypeDef.need] at hr3 hrwf hf
+    -- the token after `=>` is not `<=>`
+    obtain ⟨k4, ks4, hk4, hk4ty⟩ : ∃ k4 ks4, sd.toks ++ semiTK :: ks = k4 :: ks4 ∧ k4.1 ≠ T.tl2alias := by
+      cases sd with
+      | fields fs =>
+        cases fs with
+        | nil => exact ⟨semiTK, ks, by simp [StructDef.toks, fieldsToks], by decide⟩
+        | cons f fs =>
+          simp only [StructDef.wf] at hrwf
+          obtain ⟨kf, ksf, hkf, hmem⟩ := fieldToks_head f ((List.all_eq_true.mp hrwf) f List.mem_cons_self)
+          refine ⟨kf, ksf ++ (fieldsToks fs ++ semiTK :: ks), by simp [StructDef.toks, fieldsToks, hkf], ?_⟩
+          simp only [fieldStart, List.mem_cons, List.not_mem_nil, or_false] at hmem
+          rcases hmem with h | h | h | h <;> rw [h] <;> decide
+      | union vs =>
+        cases vs with
+        | nil => exact ⟨semiTK, ks, by simp [StructDef.toks], by decide⟩
+        | cons v vs =>
+          refine ⟨(variantNameTy v.name, v.name), v.body.toks ++ (moreVariantsToks vs ++ semiTK :: ks),
+            by simp [StructDef.toks, variantToks], ?_⟩
+          have := variantNameTy_mem v.name
+          simp only [variantStart, List.mem_cons, List.not_mem_nil, or_false] at this
+          rcases this with h | h | h <;> (show variantNameTy v.name ≠ _) <;> rw [h] <;> decide
+    rw [hk4] at hr3
+    obtain ⟨hd4, r4, e4, hnw4, htk4, hr4, hsuf4⟩ := skipWS_strip hr3
+    have hty4 : (hd4.ty == T.tl2alias) = false := by
+      rw [show hd4.ty = hd4.tk.1 from rfl, htk4]; simpa using hk4ty
+    have ect : checkToken r3 T.tl2alias = .ok (false, hd4 :: r4) := by
+      simp only [checkToken, checkAny, e4, Res.ok_bind, front_cons, Res.pure_eq, List.contains_cons, List.contains_nil,
+        Bool.or_false, hty4]
+    have hs4 : strip (hd4 :: r4) = sd.toks ++ semiTK :: ks := by rw [strip_cons_nw hnw4, htk4, hr4, hk4]
+    obtain ⟨st', r5, sd', e5, hste', hcore, hr5, hs5⟩ := structS hc sd hrwf (hd4 :: r4) (hsuf4.trans hr3it) ks pos fuel hs4
+      (by omega)
+    obtain ⟨t5, ht5⟩ := front_strip hr5
+    cases st' with
+    | mk start' err' =>
+    simp only at hste'
+    subst hste'
+    cases start' with
+    | true =>
+      refine ⟨r5, { name := d.name, magic := d.magic, args := [] ++ args', ret := .struct sd' }, ?_, rfl, rfl,
+        by simpa using hacore, by simp only [TypeDef.core, hcore], hr5, hs5.trans (hsuf4.trans hsr3)⟩
+      unfold parseFuncDecl parseFields
+      simp only [e, Res.ok_bind, checkToken_nw hnw, hty, Bool.not_true, Bool.false_eq_true, ↓reduceIte, em, ea, OState.isFailed,
+        Option.isSome, Bool.and_false, e3, ect, e5, OState.hasProgress, Option.isNone, Bool.and_self, ht5, Res.pure_eq]
+    | false =>
+      obtain ⟨r6, e6, hr6, hs6⟩ := typeS_omitted hr5 pos fuel (by omega) (by decide) (by decide) (by decide)
+      obtain ⟨t6, ht6⟩ := front_strip hr6
+      refine ⟨r6, { name := d.name, magic := d.magic, args := [] ++ args', ret := .struct sd' }, ?_, rfl, rfl,
+        by simpa using hacore, by simp only [TypeDef.core, hcore], hr6, hs6.trans (hs5.trans (hsuf4.trans hsr3))⟩
+      unfold parseFuncDecl parseFields
+      simp only [e, Res.ok_bind, checkToken_nw hnw, hty, Bool.not_true, Bool.false_eq_true, ↓reduceIte, em, ea, OState.isFailed,
+        Option.isSome, Bool.and_false, e3, ect, e5, OState.hasProgress, Bool.false_and, Bool.not_false, e6, OState.isOmitted, Bool.and_self,
+        ht6, Res.pure_eq]
+
 end TLVerif.Syntaxtl2
